@@ -148,3 +148,43 @@ func harnessC17Typed() {
 	vAssert(err == nil && seen == 1, "delivered")
 	vCover("typed")
 }
+
+type evV3 struct {
+	N int    `json:"n"`
+	S string `json:"s,omitempty"`
+}
+
+//verif:entry property=C17 tier=both bounds="typed upcaster evA->evV3 copying both fields, over two stored events the second of which omits the optional field; then the upcasters are cleared and the log is replayed again" cover="typed-two"
+func harnessC17TypedTwoEvents() {
+	ctx := context.Background()
+	st := NewMemoryStore()
+	bus := New(WithStore(st))
+	s1 := vStr("s1")
+	vAssume(s1 != "")
+	n1, n2 := vInt(-9, 9), vInt(-9, 9)
+	Publish(bus, evA{N: n1, S: s1})
+	Publish(bus, evA{N: n2})
+	vAssert(RegisterUpcast(bus, func(a evA) evV3 { return evV3{N: a.N, S: a.S} }) == nil, "register-ok")
+	i := 0
+	vAssert(bus.ReplayWithUpcast(ctx, OffsetOldest, func(se *StoredEvent) error {
+		var v evV3
+		vAssert(se.Type == "eventbus.evV3" && json.Unmarshal(se.Data, &v) == nil, "typed-final-type")
+		if i == 0 {
+			vAssert(v.N == n1 && v.S == s1, "typed-json-of-f-of-decoded")
+		} else {
+			vAssert(v.N == n2 && v.S == "", "typed-upcast-of-each-event-is-independent")
+		}
+		i++
+		return nil
+	}) == nil && i == 2, "delivered")
+	// the store still holds the original events
+	bus.ClearUpcasts()
+	j := 0
+	vAssert(bus.ReplayWithUpcast(ctx, OffsetOldest, func(se *StoredEvent) error {
+		var a evA
+		vAssert(se.Type == "eventbus.evA" && json.Unmarshal(se.Data, &a) == nil, "upcasting-replay-does-not-change-the-log")
+		j++
+		return nil
+	}) == nil && j == 2, "delivered")
+	vCover("typed-two")
+}
